@@ -68,6 +68,13 @@ def patterns(n):
     return [np.zeros(n), np.where(i % 2 == 0, 2.0, -1.0), ((i * 7) % 3 - 1.0) * (1 + (i % 5) * 0.25)]
 
 
+def offset_patterns(n):
+    """points and means sitting on a large common offset (expanded quadratic forms cancel here)"""
+    i = np.arange(n)
+    base = [np.where(i % 2 == 0, 2.0, -1.0), ((i * 7) % 3 - 1.0) * (1 + (i % 5) * 0.25), np.zeros(n)]
+    return [b + 1e6 for b in base]
+
+
 def make_model(thetas, means, W, K):
     from fast_ticc.containers import arguments, model_state
     a = arguments.UserArguments(sparsity_weight=0.1, iteration_limit=1, label_switching_cost=1.0,
@@ -142,6 +149,27 @@ def work(task):
                         i, k = np.argwhere(~np.isclose(t2, table, rtol=1e-12, atol=0))[0]
                         acc.fail(dict(case, x_dtype=str(np.dtype(dt))),
                                  f"{np.dtype(dt)} data: table entry ({i},{k}) is {t2[i, k]!r}, float64 data gives {table[i, k]!r}")
+            # the same model shape on data with a large additive offset (well-conditioned thetas only)
+            if start % 4 == 1 and all(abs(refs.chol_logdet(t)[0]) <= 700 and "dense" not in nm for (nm, t) in ths):
+                Xo = np.array(offset_patterns(n))
+                mo = [Xo[(j + 1) % len(Xo)] + 0.5 for j in range(K)]
+                acc.n += 1
+                try:
+                    to = np.asarray(likelihood.all_points_all_clusters_log_likelihood(
+                        make_model([t for (_, t) in ths], mo, W, K), Xo), dtype=np.float64)
+                    for k in range(K):
+                        for i in range(len(Xo)):
+                            want, scale = refs.gaussian_logpdf_precision(Xo[i], mo[k], ths[k][1])
+                            # differences x - mu are exact here; allow eps * |x| * |theta| * |d| on top
+                            tol = 1e-10 * scale + 64 * 2.3e-16 * 1e6 * float(np.abs(ths[k][1]).sum()) * float(np.abs(Xo[i] - mo[k]).max() + 1)
+                            if not np.isfinite(to[i, k]) or abs(to[i, k] - want) > tol:
+                                acc.fail(dict(case, offset=1e6), f"NW={n} theta={ths[k][0]} data offset 1e6: table gives "
+                                         f"{to[i, k]!r}, Gaussian log-density is {want!r}")
+                                raise StopIteration
+                except StopIteration:
+                    pass
+                except Exception as e:
+                    acc.fail(dict(case, offset=1e6), f"offset data: raised {type(e).__name__}: {e}")
             # per-point function on the same (now refreshed) clusters
             if start % 2 == 0:
                 Nn = n // W
@@ -196,7 +224,7 @@ def run(ctx):
     ctx.cov["evaluations_jit"] = ctx.cov["evaluations"] - n_nojit
     # (b) end to end
     L = 20
-    menu = [("k2a", [L], 1), ("k2m1", [L], 0), ("k2mat", [L], 0), ("k2eps2", [L], 0), ("k2e5", [L], 0)]
+    menu = [("k2a", [L], 1), ("k2m1", [L], 0), ("k2mat", [L], 0), ("k2eps2", [L], 0), ("k2e5", [L], 0), ("k2off", [L], 0)]
     if ctx.thorough:
         menu += [("k2b", [L], 1), ("k3a", [L], 1), ("k2w3", [L], 1), ("k2eps", [L], 0), ("k2vec", [L], 0)]
     ps = ml.e2_plans(ctx, menu, MONS, conform=False)
